@@ -252,7 +252,7 @@ def compare(ref, good, other, hp_ref=None, hp_other=None, min_points=3):
     still = []
     dropped = 0
     for i in bad:
-        if r.get(i) is None:
+        if r.get(i) is None or not mpmath.isfinite(r[i]):
             # the reference is not finite at 50 digits: its double value was a cancellation artefact (e.g. 1/(x - 1/(1/x))),
             # so the point cannot decide (DESIGN.md section 7, rule 5)
             dropped += 1
